@@ -81,7 +81,15 @@ public:
       const bool  thorough = (tier == "thorough");
       Json  plan = Json::object();
       plan[ "prop"] = "C07";
-      Json  recipe = recipes::genRecipe( cfg, true, false, false, false, true);
+      Json  recipe = recipes::genRecipe( cfg, true, true, false, false, true);
+      // (on argv a control character behind the arguments of a sub-group is taken
+      // by the handler of the sub-group; the two are not combined here)
+      if (recipes::has( recipe, "R14") && recipes::has( recipe, "R16"))
+      {
+         Json  sets = Json::array();
+         for (auto const& x : recipe.get( "sets").arr()) if (x.s() != "R16") sets.push( x);
+         recipe[ "sets"] = sets;
+      }
       plan[ "recipe"] = recipe;
       static const char* const  progs[] = { "prog", "/usr/bin/prog", "./bin/my-tool", "tool.v2", "/opt/x/Y_z", "a" };
       plan[ "argv0"] = progs[ cfg.below( 6)];
@@ -117,8 +125,10 @@ public:
          std::ostringstream  o1, o2;
          try
          {
-            Handler  h( o1, o2, 0);
-            recipes::build( h, nullptr, d, recipe, built);
+            Handler                    h( o1, o2, 0);
+            std::unique_ptr< Handler>  sub;
+            if (recipes::has( recipe, "R14")) sub.reset( new Handler( h, 0));
+            recipes::build( h, sub.get(), d, recipe, built);
          } catch (const std::exception&)
          {
          }
@@ -141,6 +151,8 @@ public:
          {
             auto  vals = recipes::genValues( wl, a, hostile);
             auto  words = recipes::genWords( wl, a, vals);
+            // an argument of the sub-group: behind the argument that opens the group
+            if (a.in_subgroup) words.insert( words.begin(), "--" + built.subgroup_key);
             Json  wj = Json::array();
             for (auto const& w : words) wj.push( w);
             if (a.kind == recipes::kPositional) positional_at = made.size();
@@ -206,7 +218,7 @@ public:
          for (size_t k = 0; k < built.args.size(); ++k)
          {
             const ArgInfo&  a = built.args[ k];
-            if (!a.once || a.in_subgroup) continue;
+            if (!a.once) continue;
             if (a.kind != recipes::kInt && a.kind != recipes::kStr && a.kind != recipes::kDouble && a.kind != recipes::kTuple) continue;
             bool  used = false;
             for (auto const& m : made) if (m.first == k) used = true;
@@ -221,6 +233,7 @@ public:
             Json  ov = Json::object();
             ov[ "src"] = via_file ? "f" : "e";
             Json  w1 = Json::array(), w2 = Json::array();
+            if (a.in_subgroup) { w1.push( "--" + built.subgroup_key); w2.push( "--" + built.subgroup_key); }
             for (auto const& w : recipes::genWords( wl, a, recipes::genValues( wl, a, false))) w1.push( w);
             for (auto const& w : recipes::genWords( wl, a, recipes::genValues( wl, a, false))) w2.push( w);
             ov[ "first"] = w1;
